@@ -308,3 +308,74 @@ def lookup_next(fn):
                 test = _re.sub(rf"\b{e}\b", x, _norm(g.generators[0].ifs[0]))
                 return {"collection": _norm(g.generators[0].iter), "elem": x, "test": test, "found": found, "orelse": orelse, "loop": nxt, "first_match": True}
     return None
+
+
+# ---------------------------------------------------------------- hidden module state (memo caches, registries)
+_MUTATORS = {"append", "extend", "insert", "pop", "remove", "clear", "update", "setdefault", "popitem", "add", "discard", "sort", "reverse", "__setitem__"}
+_CONTAINER_CALLS = {"list", "dict", "set", "collections.defaultdict", "defaultdict", "collections.OrderedDict", "OrderedDict", "collections.Counter", "Counter",
+                    "collections.deque", "deque", "weakref.WeakValueDictionary", "WeakValueDictionary", "ParameterTable"}
+_CACHE_DECORATORS = ("lru_cache", "cache", "cached_property", "functools.lru_cache", "functools.cache", "functools.cached_property", "CachedFunction")
+
+
+def hidden_module_state(ctx, packages, allowed, why):
+    """Who-may-write rule over module-level state of the given packages.
+
+    A module-level name bound to a mutable container (literal, container constructor, comprehension) and written from
+    inside a function - subscript store/delete, mutator call, `global` rebinding - is process-wide state that outlives
+    whatever object produced it: a memo of values derived from the unit tables, a solver buffer, a registry.  `allowed`
+    maps such a name to the set of qualified functions that may write it (one line of reason each, in the caller).  A
+    memoising decorator on a function of these packages is the same state in another spelling.  Every other writer is a
+    violation with the writer as evidence; the expected count of findings is zero, the floor counts the scanned modules."""
+    from ..model import norm as _norm, dotted_name as _dn, qualname as _qn
+    scanned = 0
+    mods = []
+    for pkg in packages:
+        mods += ctx.repo.all_modules(pkg)
+    containers = {}
+    for mod in mods:
+        scanned += 1
+        for st in mod.tree.body:
+            tg = st.targets if isinstance(st, ast.Assign) else ([st.target] if isinstance(st, ast.AnnAssign) and st.value is not None else [])
+            for t in tg:
+                if not isinstance(t, ast.Name):
+                    continue
+                v = st.value
+                if isinstance(v, (ast.Dict, ast.List, ast.Set, ast.DictComp, ast.ListComp, ast.SetComp)) or (isinstance(v, ast.Call) and _dn(v.func) in _CONTAINER_CALLS):
+                    containers[t.id] = mod.relpath
+    findings = []
+    for mod in mods:
+        for fn in [x for x in ast.walk(mod.tree) if isinstance(x, (ast.FunctionDef, ast.AsyncFunctionDef))]:
+            q = f"{mod.relpath}::{_qn(fn)}"
+            for d in fn.decorator_list:
+                dn = _dn(d.func) if isinstance(d, ast.Call) else _dn(d)
+                if dn and (dn in _CACHE_DECORATORS or dn.split(".")[-1] in _CACHE_DECORATORS):
+                    findings.append((mod.relpath, _qn(fn), f"memoising decorator @{dn}", dn))
+            local = {a.arg for a in fn.args.posonlyargs + fn.args.args + fn.args.kwonlyargs}
+            glob = {n for g in ast.walk(fn) if isinstance(g, ast.Global) for n in g.names}
+            for x in ast.walk(fn):
+                if isinstance(x, ast.Name) and isinstance(x.ctx, ast.Store) and x.id not in glob:
+                    local.add(x.id)
+            for x in ast.walk(fn):
+                nm = None
+                if isinstance(x, (ast.Subscript, ast.Attribute)) and isinstance(x.ctx, (ast.Store, ast.Del)) and isinstance(x.value, ast.Name):
+                    nm, how = x.value.id, f"{_norm(x)} = ..."
+                elif isinstance(x, ast.Call) and isinstance(x.func, ast.Attribute) and x.func.attr in _MUTATORS and isinstance(x.func.value, ast.Name):
+                    nm, how = x.func.value.id, _norm(x)[:70]
+                elif isinstance(x, ast.Name) and isinstance(x.ctx, ast.Store) and x.id in glob:
+                    nm, how = x.id, f"global {x.id} rebound"
+                if nm is None or nm in local and nm not in glob or nm not in containers:
+                    continue
+                if q in allowed.get(nm, ()) or _qn(fn) in allowed.get(nm, ()):
+                    continue
+                findings.append((mod.relpath, _qn(fn), f"writes module-level {nm} ({containers[nm]}): {how}", nm))
+    ctx.floor("modules scanned for hidden module-level state", scanned, 3)
+    seen = set()
+    for rel, q, what, nm in findings:
+        if (rel, q, nm) in seen:
+            continue
+        seen.add((rel, q, nm))
+        ctx.violated(rel, q, f"no process-wide state besides the registered tables: {why}", detail=what,
+                     expected="state derived from the tables is recomputed, or owned by the object whose scope it belongs to")
+    if not findings:
+        ctx.holds("-", "-", f"no process-wide state besides the registered tables: {why}")
+    return findings
